@@ -17,7 +17,7 @@ PROFILES = {
     "C09": dict(build=2, operator=2, bquery=1, uquery=3, copy=1, transform=9, rerep=1, fault=2,
                 mutate_after=0.3, t1=0.2, t2=0.8, repeat=0.05),
     "C10": dict(build=2, operator=6, bquery=4, uquery=5, copy=1, transform=3, rerep=2, fault=2,
-                mutate_after=0.15, t1=1.0, t2=0.7, repeat=0.35, query_after=0.6),
+                mutate_after=0.15, t1=1.0, t2=0.7, repeat=0.35, query_after=0.6, pair_again=0.6),
 }
 
 
@@ -446,8 +446,8 @@ class Scheduler:
         kind = r.choice(kinds)
         if kind == "cache_drop":
             return {"op": "cache_drop"}
-        targets = self._shapes(world, defined=True)
         sources = [n for n in sorted(world.slots) if kernel.kind(world.slots[n].V) not in ("E", "W")]
+        targets = list(sources)  # shapes and stand-alone curves
         if not targets or not sources:
             return None
         a = r.choice(targets)
@@ -487,6 +487,11 @@ class Scheduler:
                 continue
             if kind == "transform" and r.random() < p.get("query_after", 0.3):
                 self.pending.append({"macro": "query_after", "of": step})
+            if kind in ("operator", "bquery") and "b" in step and step["op"] in ops.BINARY_OPERATORS + ("in_shape", "eq", "ne") \
+                    and r.random() < p.get("pair_again", 0.35):
+                # the same pair again, in another order / under another operator: this is
+                # where the in-place splitting left by the first call bites
+                self.pending.append({"macro": "pair_again", "of": step})
             if kind in ("operator", "copy") and r.random() < p["mutate_after"]:
                 # follow with an in-place mutation of the result or of an operand
                 self.pending.append({"macro": "mutate_after", "of": step})
@@ -496,6 +501,23 @@ class Scheduler:
     def resolve_macro(self, world, macro):
         """Turn a queued macro into a concrete step (needs the heap after the previous step)."""
         of = macro["of"]
+        if macro["macro"] == "pair_again":
+            a, b = of.get("a"), of.get("b")
+            if a not in world.slots or b not in world.slots:
+                return None
+            if self.rng.random() < 0.5:
+                a, b = b, a
+            if self.rng.random() < 0.75:
+                op = self.rng.choices(ops.BINARY_OPERATORS, [5, 5, 5, 5, 1, 1])[0]
+                st = {"op": op, "a": a, "b": b, "dst": self._slot_for_result(world)}
+            else:
+                st = {"op": self.rng.choice(["in_shape", "eq", "ne"]), "a": a, "b": b}
+                ka, kb = kernel.kind(world.slots[a].V), kernel.kind(world.slots[b].V)
+                if st["op"] in ("eq", "ne") and ka in ("E", "W") and kb not in ("E", "W"):
+                    st["a"], st["b"] = b, a
+            st = self._oracle_flags(st)
+            st["t2"] = True
+            return st
         if macro["macro"] == "query_after":
             if of.get("a") not in world.slots:
                 return None
